@@ -513,7 +513,7 @@ pub fn run_op(sess: &mut Session, mut op: Op) -> Option<(Op, Option<Vec<((u64, u
 }
 
 /// operations that go through Queue / Exchange wrapper objects or consume the channel
-pub fn run_op_wrapped(sess: &mut Session, op: Op) -> Option<(Op, Option<Vec<((u64, u64, Vec<FV>), Vec<u8>)>>, bool, bool)> {
+pub fn run_op_wrapped(sess: &mut Session, mut op: Op) -> Option<(Op, Option<Vec<((u64, u64, Vec<FV>), Vec<u8>)>>, bool, bool)> {
     let ch = sess.conn.open_channel(None).ok()?;
     let target = ch.channel_id();
     let mut failed = false;
@@ -535,7 +535,23 @@ pub fn run_op_wrapped(sess: &mut Session, op: Op) -> Option<(Op, Option<Vec<((u6
             Op::ExchangeDelete { name, .. } => (name.clone(), "unused-x".into()),
             _ => ("unused-x1".into(), "unused-x2".into()),
         };
-        let qobj = if qname.is_empty() { None } else { ch.queue_declare_nowait(qname.clone(), QueueDeclareOptions::default()).ok() };
+        let qobj = if qname.is_empty() {
+            None
+        } else if qname == "@srv" {
+            // declared with the empty name: the broker names it (amq.gen-<seq>) and reports
+            // 1000 + seq messages; the operation is then expected on THAT name
+            let q = ch.queue_declare("", QueueDeclareOptions::default()).ok()?;
+            let seq = q.declared_message_count()?.checked_sub(1000)?;
+            let real = format!("amq.gen-{}", seq);
+            match &mut op {
+                Op::Get { queue, .. } | Op::Consume { queue, .. } | Op::QueueBind { queue, .. } | Op::QueueUnbind { queue, .. }
+                | Op::QueuePurge { queue, .. } | Op::QueueDelete { queue, .. } => *queue = real,
+                _ => {}
+            }
+            Some(q)
+        } else {
+            ch.queue_declare_nowait(qname.clone(), QueueDeclareOptions::default()).ok()
+        };
         let x_me = ch.exchange_declare_nowait(ExchangeType::Direct, me.clone(), ExchangeDeclareOptions::default()).ok()?;
         // the other exchange lives on another channel of the connection: whatever is emitted has
         // to go out on the channel of the handle the call is made on
@@ -625,6 +641,9 @@ pub fn run_op_wrapped(sess: &mut Session, op: Op) -> Option<(Op, Option<Vec<((u6
 
 fn name(rng: &mut Rng, kind: &str) -> String {
     match rng.below(12) {
+        // a queue the SERVER names: operations through its handle must carry the name the
+        // broker assigned in its DeclareOk (wrapped operations only; elsewhere just a name)
+        3 | 4 if kind == "q" => "@srv".into(),
         0 => format!("{}-{}", kind, "n".repeat(240)),
         1 => format!("{}.\u{00e9}\u{4e16}", kind),
         2 => format!("{} with space", kind),
